@@ -140,6 +140,29 @@ func selfScenarios() []selfScenario {
 			vrt.WaitQuiet()
 			*obs = append(*obs, "parked")
 		}},
+		{name: "rwmutex-recursive-read-lock", bound: 3, want: []string{"deadlock", "done"}, body: func(obs *[]string) {
+			// a reader that read-locks again deadlocks iff a writer arrived in between
+			var m vrt.RWMutex
+			done := 0
+			vrt.Go("reader", func() {
+				m.RLock()
+				m.RLock()
+				m.RUnlock()
+				m.RUnlock()
+				done++
+			})
+			vrt.Go("writer", func() {
+				m.Lock()
+				m.Unlock()
+				done++
+			})
+			vrt.WaitQuiet()
+			if done == 2 {
+				*obs = append(*obs, "done")
+			} else {
+				*obs = append(*obs, "deadlock")
+			}
+		}},
 		{name: "atomic-check-then-act", bound: 2, want: []string{"entered=1", "entered=2"}, body: func(obs *[]string) {
 			var flag atomic.Int32
 			entered := 0
